@@ -28,4 +28,734 @@ theorem lookupCode_default (tbl : List (Nat × Nat × CellFormat)) (d : CellForm
     omega
   rw [this]
 
+/-! ## the scanner loop over a prefix of the text -/
+
+/-- where the scanner stands after the characters `l` (or how it left the loop inside `l`) -/
+def run : St → List Char → Step
+  | st, [] => .cont st
+  | st, c :: cs =>
+    match step st c with
+    | .cont st' => run st' cs
+    | r => r
+
+def finish (k : St → Res CellFormat) : Step → Res CellFormat
+  | .cont st => k st
+  | .ret f => .ok f
+  | .panic => .panic "formats::detect_custom_number_format: attempt to add with overflow (brackets)"
+
+theorem scan_nil (st : St) : scan st [] = .ok .other := rfl
+
+theorem scan_cons (st : St) (c : Char) (cs : List Char) :
+    scan st (c :: cs) = finish (fun st' => scan st' cs) (step st c) := by
+  simp only [scan, scanWith, finish]
+  cases step st c <;> rfl
+
+theorem scan_append (st : St) (l t : List Char) :
+    scan st (l ++ t) = finish (fun st' => scan st' t) (run st l) := by
+  induction l generalizing st with
+  | nil => rfl
+  | cons c cs ih =>
+    rw [List.cons_append, scan_cons, run]
+    cases h : step st c with
+    | cont st' => simp only [finish]; exact ih st'
+    | ret f => rfl
+    | panic => rfl
+
+theorem run_append (st : St) (l t : List Char) :
+    run st (l ++ t) = match run st l with
+      | .cont st' => run st' t
+      | r => r := by
+  induction l generalizing st with
+  | nil => rfl
+  | cons c cs ih =>
+    rw [List.cons_append, run, run]
+    cases h : step st c with
+    | cont st' => exact ih st'
+    | ret f => rfl
+    | panic => rfl
+
+theorem run_append_cont {st st' : St} {l : List Char} (t : List Char) (h : run st l = .cont st') :
+    run st (l ++ t) = run st' t := by rw [run_append, h]
+
+theorem run_append_ret {st : St} {l : List Char} {f : CellFormat} (t : List Char) (h : run st l = .ret f) :
+    run st (l ++ t) = .ret f := by rw [run_append, h]
+
+theorem run_cons_cont {st st' : St} {c : Char} (cs : List Char) (h : step st c = .cont st') :
+    run st (c :: cs) = run st' cs := by simp only [run, h]
+
+theorem run_cons_ret {st : St} {c : Char} {f : CellFormat} (cs : List Char) (h : step st c = .ret f) :
+    run st (c :: cs) = .ret f := by simp only [run, h]
+
+/-- outside quoted text and not right after an escape character -/
+def Out (st : St) : Prop := st.escaped = false ∧ st.isQuote = false
+
+/-! ### quoted text, escapes -/
+
+theorem step_open_quote (st : St) (h : Out st) :
+    step st '"' = .cont { st with isQuote := true, prev := '"' } := by
+  obtain ⟨h1, h2⟩ := h
+  simp [step, stepTail, h1, h2, isEscChar]
+
+theorem run_in_quote (st : St) (s : List Char) (he : st.escaped = false) (hq : st.isQuote = true)
+    (hs : ∀ c ∈ s, c ≠ '"') : ∃ p, run st s = .cont { st with prev := p } := by
+  induction s generalizing st with
+  | nil => exact ⟨st.prev, rfl⟩
+  | cons c cs ih =>
+    have hc : c ≠ '"' := hs c (by simp)
+    have h1 : step st c = .cont { st with prev := c } := by simp [step, he, hq, hc]
+    rw [run_cons_cont cs h1]
+    obtain ⟨p, hp⟩ := ih { st with prev := c } he hq (fun d hd => hs d (by simp [hd]))
+    exact ⟨p, hp⟩
+
+theorem step_close_quote (st : St) (he : st.escaped = false) (hq : st.isQuote = true) :
+    step st '"' = .cont { st with isQuote := false, prev := '"' } := by
+  simp [step, he, hq]
+
+/-- quoted text only moves `prev` -/
+theorem run_lit (st : St) (s : List Char) (h : Out st) (hs : ∀ c ∈ s, c ≠ '"') :
+    run st ('"' :: (s ++ ['"'])) = .cont { st with prev := '"' } := by
+  rw [run_cons_cont _ (step_open_quote st h)]
+  obtain ⟨p, hp⟩ := run_in_quote { st with isQuote := true, prev := '"' } s h.1 rfl hs
+  rw [run_append_cont _ hp, run_cons_cont _ (step_close_quote _ (by exact h.1) rfl)]
+  simp [run, h.2.symm]
+
+/-- an escape character and the character after it only move `prev` -/
+theorem run_esc (st : St) (e c : Char) (h : Out st) (he : isEscChar e = true) :
+    run st [e, c] = .cont { st with prev := c } := by
+  have h1 : step st e = .cont { st with escaped := true, prev := e } := by
+    have : e ≠ '"' := by intro h; subst h; simp [isEscChar] at he
+    simp [step, h.1, h.2, he, this]
+  rw [run_cons_cont _ h1]
+  have h2 : step { st with escaped := true, prev := e } c = .cont { st with escaped := false, prev := c } := by
+    simp [step]
+  rw [run_cons_cont _ h2]
+  simp [run, h.1.symm]
+
+/-! ### the idle state inside a section, plain characters -/
+
+/-- not escaped, not in quotes, no open bracket, no pending elapsed-unit flag -/
+structure Quiet (st : St) : Prop where
+  esc : st.escaped = false
+  quo : st.isQuote = false
+  brk : st.brackets = 0
+  hms : st.hms = false
+
+theorem Quiet.out {st : St} (h : Quiet st) : Out st := ⟨h.esc, h.quo⟩
+
+theorem Quiet.setPrev {st : St} (h : Quiet st) (p : Char) : Quiet { st with prev := p } :=
+  ⟨h.esc, h.quo, h.brk, h.hms⟩
+
+theorem quiet_init : Quiet St.init := ⟨rfl, rfl, rfl, rfl⟩
+
+/-- characters no arm reacts to while `ap = false`, `brackets = 0` -/
+def isPlain (c : Char) : Bool :=
+  !(c == '"' || c == ';' || c == '[' || c == ']' || isEscChar c || isAChar c || isDateChar c)
+
+theorem step_plain (st : St) (hq : Quiet st) (hap : st.ap = false) (c : Char) (hc : isPlain c = true) :
+    step st c = .cont { st with prev := c } := by
+  obtain ⟨h1, h2, h3, h4⟩ := hq
+  simp only [isPlain, isEscChar, isAChar, isDateChar, Bool.not_eq_true', Bool.or_eq_false_iff, beq_eq_false_iff_ne] at hc
+  obtain ⟨⟨⟨⟨⟨⟨c1, c2⟩, c3⟩, c4⟩, c5, c6⟩, c7, c8⟩, ⟨⟨⟨⟨⟨⟨⟨⟨⟨d1, d2⟩, d3⟩, d4⟩, d5⟩, d6⟩, d7⟩, d8⟩, d9⟩, d10⟩⟩ := hc
+  simp [step, stepTail, isEscChar, isAChar, isDateChar, isPmChar, isHmsChar, *]
+
+/-- in the idle state with `ap = false` the remembered previous character is irrelevant -/
+theorem scan_prev_irrelevant (st : St) (hq : Quiet st) (hap : st.ap = false) (p : Char) (l : List Char) :
+    scan { st with prev := p } l = scan st l := by
+  cases l with
+  | nil => rfl
+  | cons c cs =>
+    rw [scan_cons, scan_cons]
+    congr 1
+    obtain ⟨h1, h2, h3, h4⟩ := hq
+    simp only [step, stepTail, h1, h2, h3, h4, hap]
+    by_cases hd : isDateChar c = true
+    · simp [hd]
+    · have hh : isHmsChar c = false := by
+        simp only [isDateChar, isHmsChar, Bool.or_eq_true, beq_iff_eq, not_or] at hd ⊢
+        simp [hd]
+      simp [hd, hh]
+
+/-! ### bracketed prefixes -/
+
+/-- characters that may stand inside `[ ]` -/
+def isBodyChar (c : Char) : Bool := !(c == '[' || c == ']' || c == ';' || c == '"' || isEscChar c)
+
+/-- the `hms` flag after the characters of a bracket body, from flag `h` and previous character `p` -/
+def bodyHms (h : Bool) (p : Char) : List Char → Bool
+  | [] => h
+  | c :: cs => bodyHms (if h = true ∧ eqIgnoreAsciiCase c p = true then h else (p == '[' && isHmsChar c)) c cs
+
+theorem step_body (st : St) (ho : Out st) (hb : st.brackets = 1) (c : Char) (hc : isBodyChar c = true) :
+    step st c = .cont { st with
+      hms := if st.hms = true ∧ eqIgnoreAsciiCase c st.prev = true then st.hms else (st.prev == '[' && isHmsChar c)
+      prev := c } := by
+  obtain ⟨h1, h2⟩ := ho
+  simp only [isBodyChar, isEscChar, Bool.not_eq_true', Bool.or_eq_false_iff, beq_eq_false_iff_ne] at hc
+  obtain ⟨⟨⟨⟨c1, c2⟩, c3⟩, c4⟩, c5, c6⟩ := hc
+  simp [step, stepTail, isEscChar, *]
+
+theorem run_body (st : St) (body : List Char) (ho : Out st) (hb : st.brackets = 1)
+    (hc : ∀ c ∈ body, isBodyChar c = true) :
+    ∃ p, run st body = .cont { st with hms := bodyHms st.hms st.prev body, prev := p } := by
+  induction body generalizing st with
+  | nil => exact ⟨st.prev, rfl⟩
+  | cons c cs ih =>
+    rw [run_cons_cont cs (step_body st ho hb c (hc c (by simp)))]
+    generalize hst' : ({ st with
+      hms := if st.hms = true ∧ eqIgnoreAsciiCase c st.prev = true then st.hms else (st.prev == '[' && isHmsChar c)
+      prev := c } : St) = st'
+    have ho' : Out st' := by subst hst'; exact ho
+    have hb' : st'.brackets = 1 := by subst hst'; exact hb
+    obtain ⟨p, hp⟩ := ih st' ho' hb' (fun d hd => hc d (by simp [hd]))
+    refine ⟨p, ?_⟩
+    rw [hp]
+    subst hst'
+    rfl
+
+/-! ### `eq_ignore_ascii_case` against the letters h, m, s -/
+
+theorem asciiLower_eq_iff (d x : Char) (hx : ¬(65 ≤ x.toNat ∧ x.toNat ≤ 90)) :
+    asciiLower d = x ↔ d = x ∨ (65 ≤ d.toNat ∧ d.toNat ≤ 90 ∧ Char.ofNat (d.toNat + 32) = x) := by
+  constructor
+  · intro h
+    unfold asciiLower at h
+    split at h
+    · rename_i hb; exact Or.inr ⟨hb.1, hb.2, h⟩
+    · exact Or.inl h
+  · rintro (rfl | ⟨h1, h2, h3⟩)
+    · unfold asciiLower; rw [if_neg hx]
+    · unfold asciiLower; rw [if_pos ⟨h1, h2⟩]; exact h3
+
+/-- the pairs (lower, upper) the scanner's elapsed-unit test can see -/
+def hmsPairs : List (Char × Char) := [('h', 'H'), ('m', 'M'), ('s', 'S')]
+
+theorem upper_unique : ∀ pr ∈ hmsPairs, ∀ n, n < 91 → 65 ≤ n → Char.ofNat (n + 32) = pr.1 → n = pr.2.toNat := by
+  decide
+
+theorem eqIgnoreAsciiCase_pair (lo up : Char) (hp : (lo, up) ∈ hmsPairs) (p d : Char) (hpp : p = lo ∨ p = up) :
+    eqIgnoreAsciiCase d p = (d == lo || d == up) := by
+  have hlow : asciiLower p = lo := by
+    simp only [hmsPairs, List.mem_cons, Prod.mk.injEq, List.mem_nil_iff, or_false] at hp
+    rcases hp with ⟨rfl, rfl⟩ | ⟨rfl, rfl⟩ | ⟨rfl, rfl⟩ <;> rcases hpp with rfl | rfl <;> decide
+  have hlo : ¬(65 ≤ lo.toNat ∧ lo.toNat ≤ 90) := by
+    simp only [hmsPairs, List.mem_cons, Prod.mk.injEq, List.mem_nil_iff, or_false] at hp
+    rcases hp with ⟨rfl, rfl⟩ | ⟨rfl, rfl⟩ | ⟨rfl, rfl⟩ <;> decide
+  unfold eqIgnoreAsciiCase
+  rw [hlow]
+  have key : asciiLower d = lo ↔ (d = lo ∨ d = up) := by
+    rw [asciiLower_eq_iff d lo hlo]
+    constructor
+    · rintro (h | ⟨h1, h2, h3⟩)
+      · exact Or.inl h
+      · right
+        have := upper_unique (lo, up) hp d.toNat (by omega) h1 h3
+        exact Char.toNat_inj.mp this
+    · rintro (h | h)
+      · exact Or.inl h
+      · right
+        subst h
+        simp only [hmsPairs, List.mem_cons, Prod.mk.injEq, List.mem_nil_iff, or_false] at hp
+        rcases hp with ⟨rfl, rfl⟩ | ⟨rfl, rfl⟩ | ⟨rfl, rfl⟩ <;> decide
+  by_cases h : asciiLower d = lo
+  · have h1 : (d == lo || d == up) = true := by rcases key.mp h with h' | h' <;> simp [h']
+    rw [h1]
+    exact beq_iff_eq.mpr h
+  · have h1 : d ≠ lo := fun e => h (key.mpr (Or.inl e))
+    have h2 : d ≠ up := fun e => h (key.mpr (Or.inr e))
+    rw [beq_eq_false_iff_ne.mpr h, beq_eq_false_iff_ne.mpr h1, beq_eq_false_iff_ne.mpr h2]
+    rfl
+
+theorem bodyHms_false (p : Char) (cs : List Char) (hp : p ≠ '[') (hc : ∀ c ∈ cs, isBodyChar c = true) :
+    bodyHms false p cs = false := by
+  induction cs generalizing p with
+  | nil => rfl
+  | cons c cs ih =>
+    have hcb : c ≠ '[' := by
+      have := hc c (by simp)
+      simp only [isBodyChar, Bool.not_eq_true', Bool.or_eq_false_iff, beq_eq_false_iff_ne] at this
+      exact this.1.1.1.1
+    have : (p == '[') = false := by simp [hp]
+    simp only [bodyHms, this, Bool.false_and]
+    simpa using ih c hcb (fun d hd => hc d (by simp [hd]))
+
+theorem bodyHms_true (lo up : Char) (hp : (lo, up) ∈ hmsPairs) (p : Char) (hpp : p = lo ∨ p = up) (cs : List Char)
+    (hc : ∀ c ∈ cs, isBodyChar c = true) :
+    bodyHms true p cs = cs.all (fun d => d == lo || d == up) := by
+  induction cs generalizing p with
+  | nil => rfl
+  | cons c cs ih =>
+    have hpb : p ≠ '[' := by
+      simp only [hmsPairs, List.mem_cons, Prod.mk.injEq, List.mem_nil_iff, or_false] at hp
+      rcases hp with ⟨rfl, rfl⟩ | ⟨rfl, rfl⟩ | ⟨rfl, rfl⟩ <;> rcases hpp with rfl | rfl <;> decide
+    have hcb : c ≠ '[' := by
+      have := hc c (by simp)
+      simp only [isBodyChar, Bool.not_eq_true', Bool.or_eq_false_iff, beq_eq_false_iff_ne] at this
+      exact this.1.1.1.1
+    simp only [bodyHms, List.all_cons, eqIgnoreAsciiCase_pair lo up hp p c hpp, true_and]
+    by_cases h : (c == lo || c == up) = true
+    · have hcc : c = lo ∨ c = up := by simpa using h
+      rw [if_pos h, h, Bool.true_and]
+      exact ih c hcc (fun d hd => hc d (by simp [hd]))
+    · have hpf : (p == '[') = false := by simp [hpb]
+      have hf : (c == lo || c == up) = false := by simpa using h
+      rw [if_neg h, hf, Bool.false_and, hpf, Bool.false_and]
+      exact bodyHms_false c cs hcb (fun d hd => hc d (by simp [hd]))
+
+theorem bodyHms_first (lo up : Char) (hp : (lo, up) ∈ hmsPairs) (c : Char) (hcc : c = lo ∨ c = up) (cs : List Char)
+    (hc : ∀ d ∈ cs, isBodyChar d = true) :
+    bodyHms (isHmsChar c) c cs = cs.all (fun d => d == lo || d == up) := by
+  have : isHmsChar c = true := by
+    simp only [hmsPairs, List.mem_cons, Prod.mk.injEq, List.mem_nil_iff, or_false] at hp
+    rcases hp with ⟨rfl, rfl⟩ | ⟨rfl, rfl⟩ | ⟨rfl, rfl⟩ <;> rcases hcc with rfl | rfl <;> decide
+  rw [this]
+  exact bodyHms_true lo up hp c hcc cs hc
+
+/-- the flag the scanner holds at the closing bracket is the grammar's "this body is an elapsed-time unit" -/
+theorem bodyHms_eq_isElapsedBody (body : List Char) (hc : ∀ c ∈ body, isBodyChar c = true) :
+    bodyHms false '[' body = isElapsedBody body := by
+  cases body with
+  | nil => rfl
+  | cons c cs =>
+    have hcs : ∀ d ∈ cs, isBodyChar d = true := fun d hd => hc d (by simp [hd])
+    have hcb : c ≠ '[' := by
+      have := hc c (by simp)
+      simp only [isBodyChar, Bool.not_eq_true', Bool.or_eq_false_iff, beq_eq_false_iff_ne] at this
+      exact this.1.1.1.1
+    have h0 : bodyHms false '[' (c :: cs) = bodyHms (isHmsChar c) c cs := by simp [bodyHms]
+    rw [h0]
+    simp only [isElapsedBody, runOf, List.isEmpty_cons, Bool.not_false, Bool.true_and, List.all_cons]
+    by_cases hh : c = 'h' ∨ c = 'H'
+    · rw [bodyHms_first 'h' 'H' (by simp [hmsPairs]) c hh cs hcs]
+      rcases hh with rfl | rfl <;> simp
+    · by_cases hm : c = 'm' ∨ c = 'M'
+      · rw [bodyHms_first 'm' 'M' (by simp [hmsPairs]) c hm cs hcs]
+        rcases hm with rfl | rfl <;> simp
+      · by_cases hs : c = 's' ∨ c = 'S'
+        · rw [bodyHms_first 's' 'S' (by simp [hmsPairs]) c hs cs hcs]
+          rcases hs with rfl | rfl <;> simp
+        · have hf : isHmsChar c = false := by
+            simp only [not_or] at hh hm hs
+            simp [isHmsChar, hh, hm, hs]
+          rw [hf, bodyHms_false c cs hcb hcs]
+          simp only [not_or] at hh hm hs
+          simp [hh, hm, hs]
+
+/-! ### one token at a time -/
+
+theorem step_open_bracket (st : St) (hq : Quiet st) :
+    step st '[' = .cont { st with brackets := 1, prev := '[' } := by
+  obtain ⟨h1, h2, h3, h4⟩ := hq
+  simp [step, stepTail, isEscChar, *]
+
+theorem step_close_bracket (st : St) (ho : Out st) (hb : st.brackets = 1) :
+    step st ']' = if st.hms = true then .ret .timeDelta else .cont { st with brackets := 0, prev := ']' } := by
+  obtain ⟨h1, h2⟩ := ho
+  by_cases hh : st.hms = true <;> simp [step, stepTail, isEscChar, *]
+
+/-- `[body]` either is an elapsed-time unit (the scanner returns TimeDelta at the `]`) or only moves `prev` -/
+theorem run_bracket (st : St) (hq : Quiet st) (body : List Char) (hc : ∀ c ∈ body, isBodyChar c = true) :
+    run st ('[' :: (body ++ [']'])) =
+      if isElapsedBody body = true then .ret .timeDelta else .cont { st with prev := ']' } := by
+  rw [run_cons_cont _ (step_open_bracket st hq)]
+  generalize hst1 : ({ st with brackets := 1, prev := '[' } : St) = st1
+  have ho1 : Out st1 := by subst hst1; exact hq.out
+  have hb1 : st1.brackets = 1 := by subst hst1; rfl
+  obtain ⟨p, hp⟩ := run_body st1 body ho1 hb1 hc
+  rw [run_append_cont _ hp]
+  have hflag : bodyHms st1.hms st1.prev body = isElapsedBody body := by
+    subst hst1
+    simp only [hq.hms]
+    exact bodyHms_eq_isElapsedBody body hc
+  rw [hflag]
+  generalize hst2 : ({ st1 with hms := isElapsedBody body, prev := p } : St) = st2
+  have ho2 : Out st2 := by subst hst2; exact ho1
+  have hb2 : st2.brackets = 1 := by subst hst2; exact hb1
+  have hh2 : st2.hms = isElapsedBody body := by subst hst2; rfl
+  simp only [run, step_close_bracket st2 ho2 hb2, hh2]
+  by_cases he : isElapsedBody body = true
+  · simp [he]
+  · have he' : isElapsedBody body = false := by simpa using he
+    simp only [he', Bool.false_eq_true, if_false]
+    subst hst2 hst1
+    simp [hq.hms, hq.brk]
+
+theorem isBodyChar_of_not_structural (c : Char) (h : isStructural c = false) : isBodyChar c = true := by
+  simp only [isStructural, Bool.or_eq_false_iff, beq_eq_false_iff_ne] at h
+  obtain ⟨⟨⟨⟨⟨c1, c2⟩, c3⟩, c4⟩, c5⟩, c6⟩ := h
+  simp [isBodyChar, isEscChar, *]
+
+theorem mem_of_runOf (lo up : Char) (s : List Char) (h : runOf lo up s = true) : ∀ c ∈ s, c = lo ∨ c = up := by
+  simp only [runOf, Bool.and_eq_true, List.all_eq_true, Bool.or_eq_true, beq_iff_eq] at h
+  exact h.2
+
+theorem isBodyChar_of_elapsed (body : List Char) (h : isElapsedBody body = true) : ∀ c ∈ body, isBodyChar c = true := by
+  intro c hc
+  simp only [isElapsedBody, Bool.or_eq_true] at h
+  rcases h with (h | h) | h <;> rcases mem_of_runOf _ _ _ h c hc with rfl | rfl <;> decide
+
+theorem step_date (st : St) (hq : Quiet st) (hap : st.ap = false) (c : Char) (hc : isDateChar c = true) :
+    step st c = .ret .dateTime := by
+  obtain ⟨h1, h2, h3, h4⟩ := hq
+  simp only [isDateChar, Bool.or_eq_true, beq_iff_eq] at hc
+  rcases hc with ((((((((rfl | rfl) | rfl) | rfl) | rfl) | rfl) | rfl) | rfl) | rfl) | rfl <;>
+    simp [step, stepTail, isEscChar, isAChar, isPmChar, isDateChar, *]
+
+theorem step_a (st : St) (hq : Quiet st) (hap : st.ap = false) (c : Char) (hc : isAChar c = true) :
+    step st c = .cont { st with ap := true, prev := c } := by
+  obtain ⟨h1, h2, h3, h4⟩ := hq
+  simp only [isAChar, Bool.or_eq_true, beq_iff_eq] at hc
+  rcases hc with rfl | rfl <;> simp [step, stepTail, isEscChar, isAChar, *]
+
+theorem step_pm (st : St) (hq : Quiet st) (hap : st.ap = true) (c : Char)
+    (hc : c = 'm' ∨ c = 'M' ∨ c = '/') : step st c = .ret .dateTime := by
+  obtain ⟨h1, h2, h3, h4⟩ := hq
+  rcases hc with rfl | rfl | rfl <;> simp [step, stepTail, isEscChar, isAChar, isPmChar, *]
+
+theorem head_of_runOf (lo up : Char) (s : List Char) (h : runOf lo up s = true) :
+    ∃ c cs, s = c :: cs ∧ (c = lo ∨ c = up) := by
+  cases s with
+  | nil => simp [runOf] at h
+  | cons c cs => exact ⟨c, cs, rfl, mem_of_runOf lo up _ h c (by simp)⟩
+
+/-- a date token makes the scanner return DateTime, whatever follows -/
+theorem run_dateTok (st : St) (hq : Quiet st) (hap : st.ap = false) (s : List Char)
+    (h : (isDateRun s || isAmPm s) = true) (t : List Char) : run st (s ++ t) = .ret .dateTime := by
+  rw [Bool.or_eq_true] at h
+  rcases h with h | h
+  · simp only [isDateRun, Bool.or_eq_true] at h
+    have : ∃ c cs, s = c :: cs ∧ isDateChar c = true := by
+      rcases h with (((h | h) | h) | h) | h <;> obtain ⟨c, cs, rfl, hc⟩ := head_of_runOf _ _ _ h <;>
+        exact ⟨c, cs, rfl, by rcases hc with rfl | rfl <;> decide⟩
+    obtain ⟨c, cs, rfl, hc⟩ := this
+    exact run_cons_ret _ (step_date st hq hap c hc)
+  · have : ∃ a x r, s = a :: x :: r ∧ isAChar a = true ∧ (x = 'm' ∨ x = 'M' ∨ x = '/') := by
+      unfold isAmPm at h
+      split at h
+      · rename_i a m sl p m'
+        simp only [Bool.and_eq_true, Bool.or_eq_true, beq_iff_eq] at h
+        exact ⟨a, m, _, rfl, by simp [isAChar, h.1.1.1.1], by rcases h.1.1.1.2 with h | h <;> simp [h]⟩
+      · rename_i a sl p
+        simp only [Bool.and_eq_true, Bool.or_eq_true, beq_iff_eq] at h
+        exact ⟨a, sl, _, rfl, by simp [isAChar, h.1.1], by simp [h.1.2]⟩
+      · exact absurd h (by simp)
+    obtain ⟨a, x, r, rfl, ha, hx⟩ := this
+    rw [List.cons_append, run_cons_cont _ (step_a st hq hap a ha), List.cons_append]
+    have hq' : Quiet { st with ap := true, prev := a } := ⟨hq.esc, hq.quo, hq.brk, hq.hms⟩
+    exact run_cons_ret _ (step_pm { st with ap := true, prev := a } hq' rfl x hx)
+
+theorem isPlain_of_isNumChar (c : Char) (h : isNumChar c = true) : isPlain c = true := by
+  have hall : ∀ d ∈ numChars, isPlain d = true := by decide
+  exact hall c (by simpa [isNumChar] using h)
+
+theorem run_plain (st : St) (hq : Quiet st) (hap : st.ap = false) (c : Char) (hc : isPlain c = true) :
+    run st [c] = .cont { st with prev := c } := by
+  rw [run_cons_cont _ (step_plain st hq hap c hc)]; rfl
+
+/-- tokens that carry no date meaning -/
+def isNeutralTok : Tok → Bool
+  | .lit _ | .esc _ | .pad _ | .fill _ | .brk _ | .num _ => true
+  | _ => false
+
+theorem run_neutral_tok (st : St) (hq : Quiet st) (hap : st.ap = false) (t : Tok) (hwf : wfTok t = true)
+    (hn : isNeutralTok t = true) : ∃ p, run st (renderTok t) = .cont { st with prev := p } := by
+  cases t with
+  | lit s =>
+    refine ⟨'"', run_lit st s hq.out ?_⟩
+    intro c hc hcq
+    subst hcq
+    simp [wfTok, hc] at hwf
+  | esc c => exact ⟨c, run_esc st '\\' c hq.out (by decide)⟩
+  | pad c => exact ⟨c, run_esc st '_' c hq.out (by decide)⟩
+  | fill c =>
+    refine ⟨c, ?_⟩
+    have h1 := run_plain st hq hap '*' (by decide)
+    have : renderTok (.fill c) = ['*'] ++ [c] := rfl
+    rw [this, run_append_cont _ h1, run_plain _ (hq.setPrev '*') hap c (isPlain_of_isNumChar c hwf)]
+  | brk b =>
+    refine ⟨']', ?_⟩
+    simp only [wfTok, Bool.and_eq_true, List.all_eq_true, Bool.not_eq_true'] at hwf
+    have hb : ∀ c ∈ b, isBodyChar c = true := fun c hc => isBodyChar_of_not_structural c (hwf.1 c hc)
+    have := run_bracket st hq b hb
+    rw [hwf.2] at this
+    simpa [renderTok] using this
+  | num c => exact ⟨c, run_plain st hq hap c (isPlain_of_isNumChar c hwf)⟩
+  | elapsed _ => simp [isNeutralTok] at hn
+  | dateTok _ => simp [isNeutralTok] at hn
+  | general _ => simp [isNeutralTok] at hn
+
+/-- a well-formed neutral token is invisible to the scanner: removing it does not change the result -/
+theorem scan_neutral_tok (st : St) (hq : Quiet st) (hap : st.ap = false) (t : Tok) (hwf : wfTok t = true)
+    (hn : isNeutralTok t = true) (post : List Char) : scan st (renderTok t ++ post) = scan st post := by
+  obtain ⟨p, hp⟩ := run_neutral_tok st hq hap t hwf hn
+  rw [scan_append, hp]
+  exact scan_prev_irrelevant st hq hap p post
+
+/-! ### the keyword `General`, literal text after it -/
+
+theorem step_after_a (st : St) (hq : Quiet st) (hap : st.ap = true) (hp : st.prev ≠ '[') (c : Char)
+    (hc : c = 'l' ∨ c = 'L') : step st c = .cont { st with prev := c } := by
+  obtain ⟨h1, h2, h3, h4⟩ := hq
+  rcases hc with rfl | rfl <;>
+    simp [step, stepTail, isEscChar, isAChar, isPmChar, isDateChar, isHmsChar, *] <;>
+    (cases st; simp_all)
+
+/-- the keyword switches the scanner into its AM/PM mode (through the letter `a`) and does nothing else -/
+theorem run_general (st : St) (hq : Quiet st) (hap : st.ap = false) (s : List Char) (hs : isGeneralWord s = true) :
+    ∃ p, run st s = .cont { st with ap := true, prev := p } := by
+  unfold isGeneralWord at hs
+  split at hs
+  · rename_i g e n e' r a l
+    simp only [Bool.and_eq_true, Bool.or_eq_true, beq_iff_eq] at hs
+    obtain ⟨⟨⟨⟨⟨⟨hg, he⟩, hn⟩, he'⟩, hr⟩, ha⟩, hl⟩ := hs
+    have pg : isPlain g = true := by rcases hg with rfl | rfl <;> decide
+    have pe : isPlain e = true := by rcases he with rfl | rfl <;> decide
+    have pn : isPlain n = true := by rcases hn with rfl | rfl <;> decide
+    have pe' : isPlain e' = true := by rcases he' with rfl | rfl <;> decide
+    have pr : isPlain r = true := by rcases hr with rfl | rfl <;> decide
+    have aa : isAChar a = true := by rcases ha with rfl | rfl <;> decide
+    have hab : a ≠ '[' := by rcases ha with rfl | rfl <;> decide
+    refine ⟨l, ?_⟩
+    rw [run_cons_cont _ (step_plain st hq hap g pg),
+        run_cons_cont _ (step_plain _ (hq.setPrev g) hap e pe),
+        run_cons_cont _ (step_plain _ (hq.setPrev e) hap n pn),
+        run_cons_cont _ (step_plain _ (hq.setPrev n) hap e' pe'),
+        run_cons_cont _ (step_plain _ (hq.setPrev e') hap r pr),
+        run_cons_cont _ (step_a _ (hq.setPrev r) hap a aa)]
+    have hq' : Quiet { st with ap := true, prev := a } := ⟨hq.esc, hq.quo, hq.brk, hq.hms⟩
+    rw [run_cons_cont _ (step_after_a { st with ap := true, prev := a } hq' rfl hab l hl)]
+    rfl
+  · exact absurd hs (by simp)
+
+/-- literal text (quoted, escaped, padding) never leaves the loop and keeps every flag -/
+theorem run_text_toks (st : St) (ho : Out st) (ts : List Tok) (hwf : ∀ t ∈ ts, wfTok t = true)
+    (ht : ∀ t ∈ ts, isTextTok t = true) : ∃ p, run st (renderSection ts) = .cont { st with prev := p } := by
+  induction ts generalizing st with
+  | nil => exact ⟨st.prev, rfl⟩
+  | cons t ts ih =>
+    have h1 : ∃ p, run st (renderTok t) = .cont { st with prev := p } := by
+      have hw := hwf t (by simp)
+      have hk := ht t (by simp)
+      cases t with
+      | lit s =>
+        refine ⟨'"', run_lit st s ho ?_⟩
+        intro c hc hcq
+        subst hcq
+        simp [wfTok, hc] at hw
+      | esc c => exact ⟨c, run_esc st '\\' c ho (by decide)⟩
+      | pad c => exact ⟨c, run_esc st '_' c ho (by decide)⟩
+      | fill _ => simp [isTextTok] at hk
+      | brk _ => simp [isTextTok] at hk
+      | elapsed _ => simp [isTextTok] at hk
+      | dateTok _ => simp [isTextTok] at hk
+      | num _ => simp [isTextTok] at hk
+      | general _ => simp [isTextTok] at hk
+    obtain ⟨p, hp⟩ := h1
+    have ho' : Out { st with prev := p } := ho
+    obtain ⟨p', hp'⟩ := ih { st with prev := p } ho' (fun t ht' => hwf t (by simp [ht'])) (fun t ht' => ht t (by simp [ht']))
+    exact ⟨p', by rw [renderSection, run_append_cont _ hp, hp']⟩
+
+/-! ### a whole section -/
+
+/-- what may follow the first section: the end of the text, or `;` and anything at all -/
+def Stops (post : List Char) : Prop := post = [] ∨ ∃ r, post = ';' :: r
+
+theorem scan_stops (st : St) (ho : Out st) (post : List Char) (hs : Stops post) : scan st post = .ok .other := by
+  rcases hs with rfl | ⟨r, rfl⟩
+  · rfl
+  · obtain ⟨h1, h2⟩ := ho
+    rw [scan_cons]
+    simp [step, stepTail, isEscChar, finish, *]
+
+theorem classify_text_toks (ts : List Tok) (ht : ∀ t ∈ ts, isTextTok t = true) : classifySection ts = .other := by
+  induction ts with
+  | nil => rfl
+  | cons t ts ih =>
+    have hk := ht t (by simp)
+    have := ih (fun t ht' => ht t (by simp [ht']))
+    cases t <;> simp [isTextTok] at hk <;> simpa [classifySection] using this
+
+/-- a section without the keyword: neutral tokens are skipped, the first date / elapsed token decides -/
+theorem scan_plain_section (ts : List Tok) (hwf : ∀ t ∈ ts, wfTok t = true) (hng : ∀ t ∈ ts, isGeneral t = false)
+    (st : St) (hq : Quiet st) (hap : st.ap = false) (post : List Char) :
+    scan st (renderSection ts ++ post) =
+      match classifySection ts with
+      | .other => scan st post
+      | f => .ok f := by
+  induction ts with
+  | nil => rfl
+  | cons t ts ih =>
+    have hw := hwf t (by simp)
+    have hg := hng t (by simp)
+    have ih' := ih (fun t ht' => hwf t (by simp [ht'])) (fun t ht' => hng t (by simp [ht']))
+    rw [renderSection, List.append_assoc]
+    cases t with
+    | dateTok s =>
+      have := run_dateTok st hq hap s hw []
+      rw [List.append_nil] at this
+      rw [scan_append, show renderTok (.dateTok s) = s from rfl, this]
+      rfl
+    | elapsed b =>
+      have hb := isBodyChar_of_elapsed b hw
+      have := run_bracket st hq b hb
+      rw [show isElapsedBody b = true from hw, if_pos rfl] at this
+      rw [scan_append, show renderTok (.elapsed b) = '[' :: (b ++ [']']) from rfl, this]
+      rfl
+    | general _ => simp [isGeneral] at hg
+    | lit s => rw [scan_neutral_tok st hq hap _ hw rfl]; exact ih'
+    | esc c => rw [scan_neutral_tok st hq hap _ hw rfl]; exact ih'
+    | pad c => rw [scan_neutral_tok st hq hap _ hw rfl]; exact ih'
+    | fill c => rw [scan_neutral_tok st hq hap _ hw rfl]; exact ih'
+    | brk b => rw [scan_neutral_tok st hq hap _ hw rfl]; exact ih'
+    | num c => rw [scan_neutral_tok st hq hap _ hw rfl]; exact ih'
+
+/-- a section using the keyword `General` is never a date format -/
+theorem scan_general_section (ts : List Tok) (hwf : ∀ t ∈ ts, wfTok t = true) (hshape : generalShape ts = true)
+    (st : St) (hq : Quiet st) (hap : st.ap = false) (post : List Char) (hs : Stops post) :
+    scan st (renderSection ts ++ post) = .ok .other ∧ classifySection ts = .other := by
+  induction ts with
+  | nil => simp [generalShape] at hshape
+  | cons t ts ih =>
+    have hw := hwf t (by simp)
+    rw [renderSection, List.append_assoc]
+    cases t with
+    | brk b =>
+      rw [scan_neutral_tok st hq hap _ hw rfl]
+      exact ih (fun t ht' => hwf t (by simp [ht'])) (by simpa [generalShape] using hshape)
+    | general s =>
+      have htext : ∀ t ∈ ts, isTextTok t = true := by simpa [generalShape, List.all_eq_true] using hshape
+      obtain ⟨p, hp⟩ := run_general st hq hap s hw
+      rw [scan_append, show renderTok (.general s) = s from rfl, hp]
+      simp only [finish]
+      have ho' : Out { st with ap := true, prev := p } := hq.out
+      obtain ⟨p', hp'⟩ := run_text_toks _ ho' ts (fun t ht' => hwf t (by simp [ht'])) htext
+      rw [scan_append, hp']
+      simp only [finish]
+      refine ⟨scan_stops _ (by exact ho') post hs, ?_⟩
+      simpa [classifySection] using classify_text_toks ts htext
+    | lit _ => simp [generalShape] at hshape
+    | esc _ => simp [generalShape] at hshape
+    | pad _ => simp [generalShape] at hshape
+    | fill _ => simp [generalShape] at hshape
+    | elapsed _ => simp [generalShape] at hshape
+    | dateTok _ => simp [generalShape] at hshape
+    | num _ => simp [generalShape] at hshape
+
+/-- the scanner on a well-formed first section followed by the end of the text or by `;` and anything -/
+theorem scan_wf_section (ts : List Tok) (hwf : wfSection ts = true) (post : List Char) (hs : Stops post) :
+    scan St.init (renderSection ts ++ post) = .ok (classifySection ts) := by
+  simp only [wfSection, Bool.and_eq_true, List.all_eq_true] at hwf
+  obtain ⟨hw, hshape⟩ := hwf
+  by_cases hg : ts.any isGeneral = true
+  · rw [if_pos hg] at hshape
+    obtain ⟨h1, h2⟩ := scan_general_section ts hw hshape St.init quiet_init rfl post hs
+    rw [h1, h2]
+  · have hng : ∀ t ∈ ts, isGeneral t = false := by
+      intro t ht
+      cases h : isGeneral t with
+      | false => rfl
+      | true => exact absurd (List.any_eq_true.mpr ⟨t, ht, h⟩) hg
+    rw [scan_plain_section ts hw hng St.init quiet_init rfl post]
+    cases h : classifySection ts with
+    | other => exact scan_stops St.init quiet_init.out post hs
+    | dateTime => rfl
+    | timeDelta => rfl
+
+/-! ### no overflow of the bracket counter while fewer than 256 `[` have been read -/
+
+theorem stepTail_cont_brackets (st st' : St) (c : Char) (h : stepTail st c = .cont st') :
+    st'.brackets ≤ st.brackets + (if c = '[' then 1 else 0) := by
+  unfold stepTail at h
+  split at h
+  · injection h with h; subst h; simp
+  split at h
+  · cases h
+  split at h
+  · split at h
+    · cases h
+    · injection h with h; subst h; rename_i hc _; simp [hc]
+  split at h
+  · cases h
+  split at h
+  · injection h with h; subst h; simp; omega
+  split at h
+  · injection h with h; subst h; simp
+  split at h
+  · cases h
+  split at h
+  · cases h
+  · injection h with h; subst h; simp
+
+theorem stepTail_panic_brackets (st : St) (c : Char) (h : stepTail st c = .panic) : c = '[' ∧ st.brackets ≥ 255 := by
+  unfold stepTail at h
+  split at h
+  · cases h
+  split at h
+  · cases h
+  split at h
+  · split at h
+    · rename_i hc hb; exact ⟨hc, hb⟩
+    · cases h
+  split at h
+  · cases h
+  split at h
+  · cases h
+  split at h
+  · cases h
+  split at h
+  · cases h
+  split at h
+  · cases h
+  · cases h
+
+theorem step_cont_brackets (st st' : St) (c : Char) (h : step st c = .cont st') :
+    st'.brackets ≤ st.brackets + (if c = '[' then 1 else 0) := by
+  unfold step at h
+  split at h
+  · injection h with h; subst h; simp
+  split at h
+  · injection h with h; subst h; simp
+  split at h
+  · injection h with h; subst h; simp
+  split at h
+  · injection h with h; subst h; simp
+  · exact stepTail_cont_brackets st st' c h
+
+theorem step_panic_brackets (st : St) (c : Char) (h : step st c = .panic) : c = '[' ∧ st.brackets ≥ 255 := by
+  unfold step at h
+  split at h
+  · cases h
+  split at h
+  · cases h
+  split at h
+  · cases h
+  split at h
+  · cases h
+  · exact stepTail_panic_brackets st c h
+
+theorem scan_no_panic (st : St) (l : List Char) (h : st.brackets + l.count '[' ≤ 255) (msg : String) :
+    scan st l ≠ .panic msg := by
+  induction l generalizing st with
+  | nil => simp [scan, scanWith]
+  | cons c cs ih =>
+    rw [scan_cons]
+    cases hs : step st c with
+    | cont st' =>
+      have hb := step_cont_brackets st st' c hs
+      simp only [finish]
+      apply ih
+      simp only [List.count_cons, beq_iff_eq] at h
+      by_cases hc : c = '['
+      · simp only [hc, if_true] at h hb; omega
+      · simp only [hc, if_false] at h hb; omega
+    | ret f => simp [finish]
+    | panic =>
+      obtain ⟨rfl, hb⟩ := step_panic_brackets st c hs
+      simp only [List.count_cons, beq_self_eq_true, if_true] at h
+      omega
+
+theorem stops_renderRest (rest : List (List Tok)) : Stops (renderRest rest) := by
+  cases rest with
+  | nil => exact Or.inl rfl
+  | cons s ss => exact Or.inr ⟨_, rfl⟩
+
 end Formats
